@@ -103,7 +103,178 @@ where
     Ok(b)
 }
 
+
+// ------------------------------------------------------------------ a conforming archive describing a source beyond 4 GiB
+
+const BIG_CHUNK: usize = 1 << 20;
+
+/// Sink that stores nothing: every write is compared with the described source (a sequence of 1 MiB chunks and a tail).
+struct SeqSink {
+    pos: u64,
+    st: std::sync::Arc<std::sync::Mutex<SeqState>>,
+}
+struct SeqState {
+    chunks: Vec<Vec<u8>>, // unique chunks
+    seq: Vec<usize>,      // the source as a sequence of unique chunk numbers (all but the last 1 MiB long)
+    filled: Vec<u64>,     // bytes received per position
+    wrong: Vec<(u64, usize)>,
+}
+impl tokio::io::AsyncWrite for SeqSink {
+    fn poll_write(mut self: std::pin::Pin<&mut Self>, _cx: &mut std::task::Context<'_>, data: &[u8]) -> std::task::Poll<std::io::Result<usize>> {
+        {
+            let pos = self.pos;
+            let mut st = self.st.lock().unwrap();
+            let (mut o, mut rest) = (pos, data);
+            while !rest.is_empty() {
+                let idx = (o / BIG_CHUNK as u64) as usize;
+                let within = (o % BIG_CHUNK as u64) as usize;
+                let ok = idx < st.seq.len() && {
+                    let c = &st.chunks[st.seq[idx]];
+                    within < c.len() && {
+                        let n = rest.len().min(c.len() - within);
+                        c[within..within + n] == rest[..n]
+                    }
+                };
+                if !ok {
+                    st.wrong.push((pos, data.len()));
+                    break;
+                }
+                let n = rest.len().min(st.chunks[st.seq[idx]].len() - within);
+                st.filled[idx] += n as u64;
+                o += n as u64;
+                rest = &rest[n..];
+            }
+        }
+        self.pos += data.len() as u64;
+        std::task::Poll::Ready(Ok(data.len()))
+    }
+    fn poll_flush(self: std::pin::Pin<&mut Self>, _cx: &mut std::task::Context<'_>) -> std::task::Poll<std::io::Result<()>> {
+        std::task::Poll::Ready(Ok(()))
+    }
+    fn poll_shutdown(self: std::pin::Pin<&mut Self>, _cx: &mut std::task::Context<'_>) -> std::task::Poll<std::io::Result<()>> {
+        std::task::Poll::Ready(Ok(()))
+    }
+}
+impl tokio::io::AsyncSeek for SeqSink {
+    fn start_seek(mut self: std::pin::Pin<&mut Self>, position: std::io::SeekFrom) -> std::io::Result<()> {
+        match position {
+            std::io::SeekFrom::Start(o) => self.pos = o,
+            std::io::SeekFrom::Current(d) => self.pos = (self.pos as i64 + d) as u64,
+            std::io::SeekFrom::End(_) => return Err(std::io::Error::new(std::io::ErrorKind::Unsupported, "seek from end")),
+        }
+        Ok(())
+    }
+    fn poll_complete(self: std::pin::Pin<&mut Self>, _cx: &mut std::task::Context<'_>) -> std::task::Poll<std::io::Result<u64>> {
+        std::task::Poll::Ready(Ok(self.pos))
+    }
+}
+
+/// A 3 MiB archive from the independent encoder describing a source of 4 100 MiB + 12 345 bytes: chunk X 4 095 times,
+/// Y (ending exactly at offset 2^32), X three times, Y, a tail T. Stored in the order Y T X with gaps, behind slack.
+/// Opened, reported and cloned by the real reader (local and over HTTP) into a comparing sink.
+fn beyond_4gib_source_leg(rep: &mut Report) {
+    use blake2::{Blake2b512, Digest};
+    let mut agg = Agg::default();
+    let x: Vec<u8> = (0..BIG_CHUNK).map(|i| (i * 7 + i / 251) as u8).collect();
+    let y: Vec<u8> = (0..BIG_CHUNK).map(|i| (i * 13 + 5 + i / 127) as u8).collect();
+    let t: Vec<u8> = (0..12_345usize).map(|i| (i * 3 + 1) as u8).collect();
+    let mut seq: Vec<usize> = vec![0; 4095];
+    seq.push(1);
+    seq.extend([0, 0, 0, 1, 2]);
+    let chunks = vec![x.clone(), y.clone(), t.clone()];
+    let total: u64 = seq.iter().map(|&i| chunks[i].len() as u64).sum();
+    // checksum of the described source (4.3 GB through Blake2b: a few seconds, on its own thread)
+    let (chunks2, seq2) = (chunks.clone(), seq.clone());
+    let hasher = std::thread::spawn(move || {
+        let mut h = Blake2b512::new();
+        for &i in &seq2 {
+            h.update(&chunks2[i]);
+        }
+        h.finalize().to_vec()
+    });
+    // payload: [5 pad][Y][1 gap][T][3 gaps][X]
+    let mut payload = vec![0xA5u8; 5];
+    let off_y = payload.len() as u64;
+    payload.extend_from_slice(&y);
+    payload.push(0xA5);
+    let off_t = payload.len() as u64;
+    payload.extend_from_slice(&t);
+    payload.extend_from_slice(&[0xA5; 3]);
+    let off_x = payload.len() as u64;
+    payload.extend_from_slice(&x);
+    let desc = |c: &Vec<u8>, off: u64| codec::Desc { checksum: codec::blake2b512(c).to_vec(), archive_size: c.len() as u32, archive_offset: off, source_size: c.len() as u32 };
+    let source_checksum = hasher.join().unwrap();
+    let dict = codec::Dict {
+        application_version: "0.13.0".into(),
+        source_checksum: source_checksum.clone(),
+        source_total_size: total,
+        chunker_params: Some(codec::Params { chunk_filter_bits: 0, min_chunk_size: 0, max_chunk_size: BIG_CHUNK as u32, rolling_hash_window_size: 0, chunk_hash_length: 64, chunking_algorithm: 2 }),
+        chunk_compression: Some(codec::Comp { compression: 0, compression_level: 0 }),
+        rebuild_order: seq.iter().map(|&i| i as u32).collect(),
+        chunk_descriptors: vec![desc(&x, off_x), desc(&y, off_y), desc(&t, off_t)],
+        metadata: vec![],
+        unknown: vec![],
+    };
+    let mut bytes = codec::encode_header(&dict, &codec::EncOpts { legacy_magic: true, ..Default::default() });
+    bytes.extend_from_slice(&payload);
+    let detail = |extra: Value| json!({"leg": "conforming archive describing a source beyond 4 GiB", "source_len": total, "sequence": "X*4095 Y X X X Y T (X, Y 1 MiB; T 12345 bytes)", "archive": "(3 MiB, not embedded)", "source": "", "extra": extra});
+    let rt = tokio::runtime::Builder::new_current_thread().enable_all().build().unwrap();
+    let lab = HttpLab::new();
+    for transport in ["local", "http"] {
+        let st = std::sync::Arc::new(std::sync::Mutex::new(SeqState { chunks: chunks.clone(), seq: seq.clone(), filled: vec![0; seq.len()], wrong: vec![] }));
+        let st2 = st.clone();
+        let bytes2 = bytes.clone();
+        let cs = source_checksum.clone();
+        async fn flow<R: ArchiveReader>(reader: R, total: u64, cs: Vec<u8>, nseq: usize, st: std::sync::Arc<std::sync::Mutex<SeqState>>) -> Result<(), String>
+        where
+            R::Error: std::error::Error,
+        {
+            let mut archive = Archive::try_init(reader).await.map_err(|e| format!("try_init: {e}"))?;
+            if archive.total_source_size() != total {
+                return Err(format!("reported source size {} != {}", archive.total_source_size(), total));
+            }
+            if archive.source_checksum().slice() != &cs[..] {
+                return Err("reported source checksum differs".into());
+            }
+            let offs: Vec<u64> = archive.iter_source_chunks().map(|(o, _)| o).collect();
+            if offs.len() != nseq || offs.iter().enumerate().any(|(i, &o)| o != i as u64 * BIG_CHUNK as u64) {
+                return Err(format!("source chunk offsets differ (count {}, last {:?})", offs.len(), offs.last()));
+            }
+            let mut output = CloneOutput::new(SeqSink { pos: 0, st }, archive.build_source_index());
+            let mut stream = archive.chunk_stream(output.chunks());
+            while let Some(r) = stream.next().await {
+                let v = r.map_err(|e| format!("read: {e}"))?.decompress().map_err(|e| format!("decompress: {e}"))?.verify().map_err(|e| format!("verify: {e}"))?;
+                output.feed(&v).await.map_err(|e| format!("feed: {e}"))?;
+            }
+            Ok(())
+        }
+        let r = if transport == "local" {
+            catch(|| rt.block_on(flow(bitar::archive_reader::IoReader::new(std::io::Cursor::new(bytes2)), total, cs, seq.len(), st2)))
+        } else {
+            lab.server.arm(&bytes, Script { faults: vec![], splits: vec![], keep_alive: true });
+            lab.pooled.set(true);
+            catch(|| lab.rt.block_on(flow(lab.reader(0), total, cs, seq.len(), st2)))
+        };
+        agg.add("archives_describing_sources_beyond_4gib", 1);
+        agg.add("archives", 1);
+        match r {
+            Err(p) => agg.viol(&format!("panic@{}", panic_site(&p)), || detail(json!({"transport": transport, "panic": p}))),
+            Ok(Err(e)) if e.starts_with("reported") || e.starts_with("source chunk offsets") => agg.viol("reader-reports-different-values", || detail(json!({"transport": transport, "error": e}))),
+            Ok(Err(e)) => agg.viol("conforming-archive-rejected", || detail(json!({"transport": transport, "error": e}))),
+            Ok(Ok(())) => {
+                let st = st.lock().unwrap();
+                let complete = st.filled.iter().enumerate().all(|(i, &n)| n == st.chunks[st.seq[i]].len() as u64);
+                if !st.wrong.is_empty() || !complete {
+                    agg.viol("conforming-archive-cloned-wrong", || detail(json!({"transport": transport, "writes_with_wrong_bytes": st.wrong.iter().take(5).collect::<Vec<_>>(), "positions_incomplete_or_overfilled": st.filled.iter().enumerate().filter(|(i, &n)| n != st.chunks[st.seq[*i]].len() as u64).count()})));
+                }
+            }
+        }
+    }
+    rep.agg.merge(agg);
+}
+
 pub fn run(rep: &mut Report) {
+    beyond_4gib_source_leg(rep);
     let thorough = rep.thorough();
     // (universe cfg, word sizes, compression)
     let mut specs: Vec<(Cfg, Vec<usize>, codec::Comp)> = vec![
@@ -348,7 +519,7 @@ pub fn run(rep: &mut Report) {
     rep.set("evaluations", json!(rep.agg.get("archives") + rep.agg.get("http_clones") + rep.agg.get("seeded_clones") + rep.agg.get("cli_clones")));
     rep.set("distinct_nontrivial", json!(rep.agg.distinct_count("layouts")));
     rep.set("exhaustive", json!(thorough));
-    rep.set("rule", json!("independent encoder: sources of <=3/4 words (incl. empty source and duplicate chunks) x {current, legacy magic} x slack {0,1,7,100} x all permutations of the stored chunks x gap pattern {none, 1 byte after each, ramp} x unknown fields {none, in every message} x all per-chunk storage assignments {compressed iff smaller, raw, compressed although larger} x hash length {4,5,64} x {packed, unpacked rebuild order}, per chunker/compression universe (quick: a deterministic 1-in-5 thinning of the product that keeps every value of every dimension; thorough: the full product); each archive is opened by the real reader (accessors == encoder inputs), printed by the real info code, cloned through IoReader, every 16th through the real clone_cmd --verify-output on a file and over HTTP, with a seed (recorded chunker parameters in use) and through HttpReader against the logging loopback server (requests == maximal runs); non-trivial = distinct archive byte strings"));
+    rep.set("rule", json!("independent encoder: sources of <=3/4 words (incl. empty source and duplicate chunks) x {current, legacy magic} x slack {0,1,7,100} x all permutations of the stored chunks x gap pattern {none, 1 byte after each, ramp} x unknown fields {none, in every message} x all per-chunk storage assignments {compressed iff smaller, raw, compressed although larger} x hash length {4,5,64} x {packed, unpacked rebuild order}, per chunker/compression universe (quick: a deterministic 1-in-5 thinning of the product that keeps every value of every dimension; thorough: the full product); each archive is opened by the real reader (accessors == encoder inputs), printed by the real info code, cloned through IoReader, every 16th through the real clone_cmd --verify-output on a file and over HTTP, with a seed (recorded chunker parameters in use) and through HttpReader against the logging loopback server (requests == maximal runs); one archive describing a source of 4 100 MiB + 12 345 bytes in three stored chunks (a chunk ends exactly at source offset 2^32; legacy magic, stored order Y T X with gaps), opened, reported and cloned locally and over HTTP into a comparing sink; non-trivial = distinct archive byte strings"));
     rep.assume("the independent encoder defines 'conforming'; it never stores a compressed chunk whose stored size equals its source size");
 }
 
